@@ -297,7 +297,7 @@ impl Prop for C03 {
     fn runs(&self, tier: Tier) -> u64 {
         let exh = tiny_sessions().len() as u64 * (5040 / PERM_CHUNK);
         exh + match tier {
-            Tier::Quick => 8000,
+            Tier::Quick => 24_000,
             Tier::Thorough => 250_000,
         }
     }
